@@ -159,9 +159,11 @@ enum Intruder {
     /// begin_read while the victim is parked and keep the reader across the victim's completion
     /// and two later commits: its snapshot must not change
     HoldReader,
+    /// three commits in a row, each rewriting everything: what the first one frees is reused
+    ThreeCommits,
 }
 
-const INTRUDERS: [Intruder; 7] = [
+const INTRUDERS: [Intruder; 8] = [
     Intruder::ReadAll,
     Intruder::DropOldReader,
     Intruder::DropSavepoint,
@@ -169,6 +171,7 @@ const INTRUDERS: [Intruder; 7] = [
     Intruder::TwoReads,
     Intruder::DropDatabase,
     Intruder::HoldReader,
+    Intruder::ThreeCommits,
 ];
 
 struct Shared {
@@ -345,6 +348,8 @@ fn run_victim(v: Victim, sh: &Shared) -> Result<Option<u64>, String> {
 struct IntruderOut {
     reads: Vec<u64>,
     committed: Option<u64>,
+    /// every commit number the intruder committed, in order
+    committed_all: Vec<u64>,
 }
 
 fn run_intruder(i: Intruder, sh: &Shared) -> Result<IntruderOut, String> {
@@ -392,6 +397,21 @@ fn run_intruder(i: Intruder, sh: &Shared) -> Result<IntruderOut, String> {
             write_seq(&txn, cur + 1, 5)?;
             txn.commit().map_err(|e| e.to_string())?;
             out.committed = Some(cur + 1);
+            out.committed_all.push(cur + 1);
+        }
+        Intruder::ThreeCommits => {
+            for _ in 0..3 {
+                let txn = db()?.begin_write().map_err(|e| e.to_string())?;
+                let cur = {
+                    let t = txn.open_table(SX).map_err(|e| e.to_string())?;
+                    let v = t.get(0).map_err(|e| e.to_string())?.map(|g| dec(g.value())).flatten().unwrap_or(0);
+                    v
+                };
+                write_seq(&txn, cur + 1, 14)?;
+                txn.commit().map_err(|e| e.to_string())?;
+                out.committed = Some(cur + 1);
+                out.committed_all.push(cur + 1);
+            }
         }
         Intruder::DropDatabase => {
             let d = sh.db.lock().unwrap().take();
@@ -408,7 +428,7 @@ fn compatible(v: Victim, p: &str, i: Intruder) -> bool {
     }
     // roles that use the Database after another role dropped it are not meaningful schedules
     let v_drops = matches!(v, Victim::DropDatabase | Victim::DropDatabaseWithLiveWriter);
-    let i_needs_db = matches!(i, Intruder::ReadAll | Intruder::TwoReads | Intruder::WriteCommit | Intruder::HoldReader);
+    let i_needs_db = matches!(i, Intruder::ReadAll | Intruder::TwoReads | Intruder::WriteCommit | Intruder::HoldReader | Intruder::ThreeCommits);
     if v_drops && (i_needs_db || i == Intruder::DropDatabase) {
         return false;
     }
@@ -501,7 +521,7 @@ fn scenario(v: Victim, point: &'static str, nth: u32, i: Intruder, state: u64, s
     }
     let ran = i_done.load(Ordering::SeqCst);
     out.outcome = if ran { "ran" } else { "blocked" };
-    if ran && i == Intruder::WriteCommit && writer_live_at(v, point) {
+    if ran && matches!(i, Intruder::WriteCommit | Intruder::ThreeCommits) && writer_live_at(v, point) {
         out.violation = Some(format!(
             "a second write transaction began and committed while the first one was still live (victim {v:?} parked at {point})"
         ));
@@ -559,7 +579,19 @@ fn scenario(v: Victim, point: &'static str, nth: u32, i: Intruder, state: u64, s
             if let Some(k) = victim_k {
                 admissible.insert(k);
             }
-            if let Some(k) = io.committed {
+            for k in &io.committed_all {
+                admissible.insert(*k);
+            }
+            if v == Victim::BeginRead {
+                // a reader parked inside begin_read() must end up with exactly one of the commits
+                // that existed or were made meanwhile (read_seq_txn already checked consistency)
+                if let Some(k) = victim_k {
+                    if !admissible.contains(&k) && out.violation.is_none() {
+                        out.violation = Some(format!("the reader parked at {point} finally observed commit {k}; only {admissible:?} were ever committed"));
+                    }
+                }
+            }
+            if let Some(k) = io.committed.filter(|_| i == Intruder::WriteCommit) {
                 admissible.insert(k);
                 // serial order: the intruder's commit number must directly follow what it read
                 let expect = if ran { k_before + 1 } else { victim_k.filter(|_| v != Victim::BeginRead).unwrap_or(k_before) + 1 };
@@ -694,6 +726,138 @@ fn scenario(v: Victim, point: &'static str, nth: u32, i: Intruder, state: u64, s
                 Err(e) => out.violation = Some(format!("after {v:?}@{point} x {i:?} closed the database, reopening: {e}")),
             },
             Err(e) => out.violation = Some(format!("after {v:?}@{point} x {i:?} closed the database it cannot be reopened: {e}")),
+        }
+    }
+    out
+}
+
+/// "A reader registers an id no newer than the root it then reads", for every commit kind: a reader
+/// is parked inside begin_read() (before or after registering), commits of kind `first` happen, the
+/// reader finishes begin_read() and keeps its snapshot, commits of kind `later` rewrite everything
+/// three times (so whatever was freed is reused), then the reader reads its snapshot again.
+/// kinds: 0 durable 1PC, 1 non-durable, 2 durable 2PC, 3 quick-repair
+fn late_root_scenario(point: &'static str, first: u64, later: u64, state: u64, seed: u64) -> ScenOut {
+    let cfg = Cfg { page_size: 512, region_pages: Some(64), cache: if seed % 2 == 0 { 0 } else { 1 << 20 } };
+    let be = MonBackend::new();
+    if crate::report::tiny() == 0 {
+        be.set_sync_hook(crate::fmt::sync_hook(false));
+    }
+    let mut out = ScenOut { outcome: "n/a", violation: None, inconclusive: None };
+    let sh = match setup(state, &be, &cfg) {
+        Ok(s) => Arc::new(s),
+        Err(e) => {
+            out.violation = Some(format!("setup: {e}"));
+            return out;
+        }
+    };
+    let kind_name = |k: u64| ["durable", "non-durable", "two-phase", "quick-repair"][k as usize % 4];
+    let commit = |sh: &Shared, kind: u64| -> Result<u64, String> {
+        let g = sh.db.lock().unwrap_or_else(|e| e.into_inner());
+        let db = g.as_ref().ok_or("database already dropped")?;
+        let mut txn = db.begin_write().map_err(|e| e.to_string())?;
+        match kind % 4 {
+            1 => txn.set_durability(Durability::None).map_err(|e| e.to_string())?,
+            2 => txn.set_two_phase_commit(true),
+            3 => txn.set_quick_repair(true),
+            _ => {}
+        }
+        let k = sh.k.load(Ordering::SeqCst) + 1;
+        write_seq(&txn, k, 14)?;
+        txn.commit().map_err(|e| e.to_string())?;
+        sh.k.store(k, Ordering::SeqCst);
+        Ok(k)
+    };
+    let k_before = sh.k.load(Ordering::SeqCst);
+    let ctl = Ctl::new();
+    ctl.set_trap(Trap { role: 1, point, nth: 0 });
+    let v_done = Arc::new(AtomicBool::new(false));
+    let held: Arc<Mutex<Option<Result<(ReadTransaction, u64), String>>>> = Arc::new(Mutex::new(None));
+    let vt = {
+        let (sh, ctl, v_done, held) = (sh.clone(), ctl.clone(), v_done.clone(), held.clone());
+        std::thread::spawn(move || {
+            enter(1, &ctl, seed);
+            let r = guarded(|| -> Result<(ReadTransaction, u64), String> {
+                let dbp: *const Database = {
+                    let g = sh.db.lock().unwrap_or_else(|e| e.into_inner());
+                    g.as_ref().ok_or("database already dropped")? as *const Database
+                };
+                // SAFETY: nothing drops the Database in this scenario
+                let rt = unsafe { (*dbp).begin_read().map_err(|e| e.to_string())? };
+                let k = read_seq_txn(&rt)?;
+                Ok((rt, k))
+            });
+            leave();
+            *held.lock().unwrap_or_else(|e| e.into_inner()) = Some(match r {
+                Ok(r) => r,
+                Err(p) => Err(format!("panic: {}", p.short())),
+            });
+            v_done.store(true, Ordering::SeqCst);
+            ctl.cv.notify_all();
+        })
+    };
+    let w = ctl.wait_parked(&|| v_done.load(Ordering::SeqCst), Duration::from_secs(20));
+    if w != WaitOutcome::Parked {
+        ctl.release();
+        let _ = vt.join();
+        if w == WaitOutcome::Timeout {
+            out.inconclusive = Some(format!("begin_read neither reached {point} nor finished within 20 s"));
+        }
+        return out;
+    }
+    out.outcome = "ran";
+    let ctx = format!("reader parked at {point}, then a {} commit, then three {} commits", kind_name(first), kind_name(later));
+    let mut committed = vec![k_before];
+    match guarded(|| commit(&sh, first)) {
+        Ok(Ok(k)) => committed.push(k),
+        Ok(Err(e)) => out.violation = Some(format!("{ctx}: commit while the reader was parked failed: {e}")),
+        Err(p) => out.violation = Some(format!("{ctx}: commit while the reader was parked panicked: {}", p.short())),
+    }
+    ctl.release();
+    let _ = vt.join();
+    let h = held.lock().unwrap_or_else(|e| e.into_inner()).take();
+    let (rt, k0) = match h {
+        Some(Ok(x)) => x,
+        Some(Err(e)) => {
+            out.violation.get_or_insert(format!("{ctx}: the reader's first read of its snapshot failed: {e}"));
+            return out;
+        }
+        None => {
+            out.inconclusive = Some("reader thread produced nothing".into());
+            return out;
+        }
+    };
+    if out.violation.is_none() && !committed.contains(&k0) {
+        out.violation = Some(format!("{ctx}: the reader observed commit {k0}, only {committed:?} existed"));
+    }
+    for _ in 0..3 {
+        if out.violation.is_some() {
+            break;
+        }
+        match guarded(|| commit(&sh, later)) {
+            Ok(Ok(_)) => {}
+            Ok(Err(e)) => out.violation = Some(format!("{ctx}: a later commit failed while the reader held its snapshot: {e}")),
+            Err(p) => out.violation = Some(format!("{ctx}: a later commit panicked while the reader held its snapshot (commit {k0}): {}", p.short())),
+        }
+    }
+    if out.violation.is_none() {
+        match guarded(|| read_seq_txn(&rt)) {
+            Ok(Ok(k1)) if k1 == k0 => {}
+            Ok(Ok(k1)) => out.violation = Some(format!("{ctx}: the reader saw commit {k0} and, after the later commits, commit {k1} in the same read transaction")),
+            Ok(Err(e)) => out.violation = Some(format!("{ctx}: the reader (snapshot: commit {k0}) no longer reads its snapshot after the later commits: {e}")),
+            Err(p) => out.violation = Some(format!("{ctx}: the reader (snapshot: commit {k0}) panicked reading its snapshot after the later commits: {}", p.short())),
+        }
+    }
+    drop(rt);
+    sh.old_reader.lock().unwrap_or_else(|e| e.into_inner()).take();
+    sh.savepoint.lock().unwrap_or_else(|e| e.into_inner()).take();
+    sh.victim_sp.lock().unwrap_or_else(|e| e.into_inner()).take();
+    sh.db.lock().unwrap_or_else(|e| e.into_inner()).take();
+    if out.violation.is_none() {
+        let st = be.lock();
+        if let Some(e) = st.sync_errors.first() {
+            out.violation = Some(format!("{ctx}: format: {e}"));
+        } else if let Some(e) = st.violations.first() {
+            out.violation = Some(format!("{ctx}: backend: {e}"));
         }
     }
     out
@@ -904,6 +1068,28 @@ fn stress(seed: u64, case: u64) -> StressOut {
                 leave();
             });
         }
+        // lock churn: threads that only begin and drop read transactions keep the tracker's mutex
+        // contended, which stretches every window that lies between two acquisitions of it
+        for ci in 0..(if tiny { 0 } else { 3u32 }) {
+            let (db, ctl, stop, viol) = (db.clone(), ctl.clone(), stop.clone(), viol.clone());
+            s.spawn(move || {
+                enter(80 + ci, &ctl, seed ^ case);
+                while !stop.load(Ordering::SeqCst) {
+                    match guarded(|| db.begin_read().map(drop)) {
+                        Ok(Ok(())) => {}
+                        Ok(Err(e)) => {
+                            viol.lock().unwrap().get_or_insert(format!("begin_read: {e}"));
+                            break;
+                        }
+                        Err(p) => {
+                            viol.lock().unwrap().get_or_insert(format!("begin_read panicked: {}", p.short()));
+                            break;
+                        }
+                    }
+                }
+                leave();
+            });
+        }
         // savepoint dropper
         {
             let (ctl, sp_box, stop) = (ctl.clone(), sp_box.clone(), stop.clone());
@@ -1027,10 +1213,24 @@ pub fn run(rep: &Report) {
     let all_reached: BTreeSet<&str> = points_by_victim.values().flatten().copied().collect();
     rep.extra("pause_points_never_reached", json!(ALL_POINTS.iter().filter(|p| **p != "(none)" && !all_reached.contains(*p)).collect::<Vec<_>>()));
     let (scripted_share, n_stress) = match rep.tier {
-        Tier::Quick => (1u64, 60u64),
+        Tier::Quick => (1u64, 200u64),
         Tier::Thorough => (3u64, 4_000u64),
     };
-    let n_scripted = triples.len() as u64 * scripted_share;
+    // late-root scenarios: 2 points x 4 x 4 commit kinds x 4 states
+    let mut late: Vec<(&'static str, u64, u64, u64)> = vec![];
+    if crate::report::tiny() == 0 {
+        for p in ["read.before_register", "read.registered"] {
+            for first in 0..4 {
+                for later in 0..4 {
+                    for st in 0..4 {
+                        late.push((p, first, later, st));
+                    }
+                }
+            }
+        }
+    }
+    let n_late = late.len() as u64 * scripted_share;
+    let n_scripted = triples.len() as u64 * scripted_share + n_late;
     let n_stress = if tiny > 0 { tiny.div_ceil(2) } else { n_stress };
     rep.count("scripted.triples_enumerated", triples.len() as u64);
     let outcomes: Mutex<BTreeMap<String, u64>> = Mutex::new(BTreeMap::new());
@@ -1039,8 +1239,24 @@ pub fn run(rep: &Report) {
         n_scripted + n_stress,
         |case| {
             let replay = json!({"check": "C03", "seed": rep.seed, "case": case, "tier": rep.tier.name()});
+            if case < n_late {
+                let (p, first, later, st) = late[(case % late.len() as u64) as usize];
+                let o = late_root_scenario(p, first, later, st, rep.seed ^ case);
+                rep.eval(1);
+                rep.count(&format!("late_root.{}", o.outcome), 1);
+                if o.outcome != "n/a" {
+                    rep.distinct(crate::rng::hash_bytes(st, format!("late{p}{first}{later}").as_bytes()));
+                }
+                if let Some(e) = o.inconclusive {
+                    rep.inconclusive(e);
+                }
+                if let Some(e) = o.violation {
+                    rep.violation(format!("late-root:{}", short_sig(&e)), format!("state {st}: {e}"), replay);
+                }
+                return;
+            }
             if case < n_scripted {
-                let (v, p, i, s) = triples[(case % triples.len() as u64) as usize];
+                let (v, p, i, s) = triples[((case - n_late) % triples.len() as u64) as usize];
                 let o = scenario(v, p, 0, i, s, rep.seed ^ case);
                 rep.eval(1);
                 rep.count(&format!("scripted.{}", o.outcome), 1);
